@@ -85,6 +85,26 @@ def box_tasks(u, tt, pol, dims):
                           reach=[("point inside", "G_satX0")], **kw))
     return T
 
+# ---------------------------------------------------------------- octagons (Octagonal_Shape<int8_t>)
+def oct_tasks(tier):
+    cxx, w, sg = TYPES["s8"]
+    u = Unit("C03", "oct_s8", "units/C03/oct.cc", defs={"VT": cxx, "T_W": w, "T_SIGNED": sg}, roots="re:^(w_o_|OST_|ENC_|POL_)",
+             cut=["re:Octagonal_Shape<.*>::throw_"], stubs=["common.c", "c03.c"], type_aliases={"OCT_T": ("w_o_closure", 0)})
+    pre = """  O_IMPL(&G_OX.s) = (void *)&G_OX.blk; G_OX.blk.size = OCELLS; G_OX.s.f0.f1 = OD; G_OX.s.f0.f2 = OCELLS; G_OX.s.f1 = OD;
+  O_IMPL(&G_OY.s) = (void *)&G_OY.blk; G_OY.blk.size = OCELLS; G_OY.s.f0.f1 = OD; G_OY.s.f0.f2 = OCELLS; G_OY.s.f1 = OD;
+  __CPROVER_assume(oct_wf(&G_OX) && oct_wf(&G_OY) && opt_ok());
+  G_osatX0 = osat(&G_OX.s); G_osatY0 = osat(&G_OY.s);"""
+    T = []
+    d = int(os.environ.get("VERIF_OCT_DIM", "1"))     # dimension 2 (12 cells) was tried: see DESIGN.md 10.2
+    bound = {"unwind": 2 * d * (d + 1) + 2, "note": "space dimension %d (%d stored cells); matrix contents, status flags and ghost point arbitrary; loops unwound with unwinding assertions" % (d, 2 * d * (d + 1))}
+    kw = dict(bounded=bound, timeout=3000, object_bits=9, defs={"OD": d, "OPT_RANGE": "((int64_t)1 << %d)" % (w + 2)}, split_post=True, mem_gb=40, harness_pre=pre, group="octagon s8")
+    for (name, call, two) in [("closure", "FN_o_closure(&G_OX.s)", False), ("is_empty", "_Bool r = FN_o_is_empty(&G_OX.s)", False),
+                              ("intersection", "FN_o_intersection(&G_OX.s, &G_OY.s)", True), ("contains", "_Bool r = FN_o_contains(&G_OX.s, &G_OY.s)", True),
+                              ("is_disjoint_from", "_Bool r = FN_o_is_disjoint_from(&G_OX.s, &G_OY.s)", True), ("equal", "_Bool r = FN_o_equal(&G_OX.s, &G_OY.s)", True)]:
+        T.append(Task("oct/s8/%s/dim%d" % (name, d), u, "FN_o_" + name, ["C03/oct.h"], [], call,
+                      reach=[("point in both", "G_osatX0 && G_osatY0")] if two else [("point inside", "G_osatX0")], **kw))
+    return [u], T
+
 def build(tier):
     units = []; T = []
     types = ["s8"] if tier == "quick" else ["s8", "s32"]
@@ -109,6 +129,7 @@ def build(tier):
     for (tt, pol) in ([("s8", "nat"), ("s8", "rat")] if tier == "quick" else [(t, p) for t in ("s8", "s32") for p in ("nat", "rat")]):
         u = box_unit(tt, pol); units.append(u)
         T += box_tasks(u, tt, pol, [1, 2] if tier == "quick" else [0, 1, 2])
+    ou, ot = oct_tasks(tier); units += ou; T += ot
     return units, T
 
 def main(tier, only=None):
@@ -116,8 +137,8 @@ def main(tier, only=None):
     if only: tasks = [t for t in tasks if only in t.id]; units = [u for u in units if any(t.unit is u for t in tasks)]
     return run_check("C03", tier, tasks, units, "other",
                      trusted_base=["clang 14 front end + LLVM mem2reg", "tools/ll2c.py (IR -> C)", "CBMC 6.11 / cadical", "stubs/common.c", "stubs/c03.c", "stubs/c03_box.c"],
-                     extra_assumptions=["operations taking Linear_Expression / Constraint / Generator / another domain (affine transformers, refinements, converting constructors: GMP coefficients), the float and GMP instantiations and octagons are NOT covered by this check", "boxes: only the operations whose operands are boxes (comparisons, predicates, meet, join, difference, closure, unconstrain) in space dimension <= 2, soundness clauses only; their interval layer is check C12", "box status: the UNIVERSE bit is assumed clear (no Box code sets it)"],
-                     explanation="bounded-dimension CBMC code contracts with a ghost point on BD_Shape<native integer> and Box<Interval<native integer>> operations extracted from the real headers",
+                     extra_assumptions=["operations taking Linear_Expression / Constraint / Generator / another domain (affine transformers, refinements, converting constructors: GMP coefficients) and the float and GMP instantiations are NOT covered by this check; octagons only in space dimension 1", "boxes: only the operations whose operands are boxes (comparisons, predicates, meet, join, difference, closure, unconstrain) in space dimension <= 2, soundness clauses only; their interval layer is check C12", "box status: the UNIVERSE bit is assumed clear (no Box code sets it)"],
+                     explanation="bounded-dimension CBMC code contracts with a ghost point on BD_Shape<native integer>, Octagonal_Shape<native integer> and Box<Interval<native integer>> operations extracted from the real headers",
                      max_workers=5)
 
 if __name__ == "__main__":
